@@ -378,6 +378,25 @@ def w_rules(ctx):
         from . import c08, c16
         c08.r2_bounded_writer(ctx)
         c16.rws_separator_sees_no_whitespace(ctx)
+        # W17: one stub call is one invocation: the HTTP transport sends a request once - the send is not inside a loop
+        # (a retry after a stream error re-runs a method whose first run may already have happened)
+        sent = 0
+        for hb in F.real_bodies():
+            if hb.crate != "jsonrpsee_http_client" or not re.search(r"transport::HttpTransportClient::<.*>::inner_send", hb.path):
+                continue
+            for c in hb.calls_to(r"tower::Service::call$|Service<.*>>::call$"):
+                sent += 1
+                R.fn(hb)
+                R.check(not hb.can_reach(c.bb, c.bb, avoid=()) or c.bb not in hb.reach_from(c.bb), "C17.W17", "%s:request-sent-once" % fkey(hb), "the HTTP transport sends a request once", "%s can send the same request again (the send sits in a loop): the server method may run twice for one stub call, and the caller sees only the second run" % short(hb.path), where(c))
+        R.floor("C17.W17", sent, 1, "sends of the HTTP transport")
+        # W18: an item a subscription method sends reaches the client, or the method is told it did not: on every path on
+        # which SubscriptionSink::send returns Ok the message went through MethodSink::send
+        for sb_ in F.find(r"^jsonrpsee_core::server::subscription::SubscriptionSink::send::\{closure#0\}$"):
+            R.fn(sb_)
+            ws_ = {c.bb for c in sb_.calls_to(r"MethodSink::send$")}
+            oks_ = {bi for bi, blk in enumerate(sb_.blocks) if bi in sb_.reachable for st in blk["st"] if st["s"] == "assign" and st["pl"]["l"] == 0 and not st["pl"].get("p") and st["rv"]["k"] == "agg" and st["rv"].get("variant") == "Ok"}
+            free_ = (sb_.reach_from(0, avoid=ws_) | {0}) - ws_
+            R.check(bool(ws_) and not (free_ & oks_), "C17.W18", "sink-send:ok-means-written", "SubscriptionSink::send returns Ok only after handing the item to the connection", "SubscriptionSink::send can report Ok without having written the item (a path to an Ok return avoids MethodSink::send): the stream silently skips that item", "%s:%d" % (sb_.file, sb_.lo))
         from .common import builder_rebuilds_copy_fields_verbatim
         builder_rebuilds_copy_fields_verbatim(ctx, "C17.W14", r"^jsonrpsee_(http_client::client::HttpClientBuilder|ws_client::WsClientBuilder|core::client::async_client::ClientBuilder|client_transport::ws::WsTransportClientBuilder)\b")
         # W11: the value / error object the server method returned is what is put on the wire: MethodResponse::response
